@@ -2,7 +2,7 @@
    behaviours used by the correspondence check, and the observation compared with the code. *)
 From Coq Require Import List Arith Bool.
 Import ListNotations.
-From NJ Require Import Base Edits Registry Classify Select Reorder Machine Spec.
+From NJ Require Import Base Collections Edits Registry Classify Select Reorder Machine Spec.
 
 (* ---------- synthetic providers ---------- *)
 Definition PID_DEBUG := 90.
@@ -42,13 +42,13 @@ Record bcase := mkCase {
   bc_session : list bool          (* true = invoke, false = init *)
 }.
 
-(* named edits on the provider list *)
+(* named edits on the provider list; names and directives play no part afterwards *)
 Definition apply_edits (l : list pdesc) : res (list pdesc) :=
   let nodes := map (fun (ip : nat * pdesc) => mkEnode (fst ip) (d_origin (snd ip)) (d_rep (snd ip)) (d_bef (snd ip)) (d_aft (snd ip)))
                    (combine (seq_from 0 (length l)) l) in
   match edits nodes with
   | EErr _ => Err EB_EDIT
-  | EOk r => Ok (flat_map (fun n => match nth_opt (eid n) l with Some d => [d] | None => [] end) r)
+  | EOk r => Ok (map erase_names (flat_map (fun n => match nth_opt (eid n) l with Some d => [d] | None => [] end) r))
   end.
 
 Fixpoint insert_at {A} (pos : nat) (x : A) (l : list A) : list A :=
